@@ -536,7 +536,10 @@ void eb_read_bin(eb_t a, const uint8_t *bin, size_t len) {
 				RLC_THROW(ERR_NO_VALID);
 				break;
 		}
-		eb_upk(a, a);
+		if (!eb_upk(a, a)) {
+			RLC_THROW(ERR_NO_VALID);
+			return;
+		}
 	}
 
 	if (len == 2 * RLC_FB_BYTES + 1) {
